@@ -286,6 +286,15 @@ def c13_8(ctx):
                              witness="df_slice(ts, lb = ts.index[0], openclose = '(]') must drop the first row")
                 else:
                     raise AnalysisError('unrecognised rebinding of %s in _df_slice: %s' % (b, U(s)))
+    # the number of stitched columns and the brackets are the caller's: df_slice never rebinds n / openclose (a clamped n loses a column)
+    top = ctx.repo.fn('_pandas:df_slice')
+    for p in ('n', 'openclose'):
+        ctx.count(1, '%s: parameter %s' % (top.qual, p))
+        for s in ast.walk(top.node):
+            tg = [t for t in ast.walk(s) if isinstance(t, ast.Name) and t.id == p and isinstance(t.ctx, ast.Store)] if isinstance(s, (ast.Assign, ast.AugAssign, ast.AnnAssign, ast.For, ast.NamedExpr)) else []
+            if tg and not isinstance(s, ast.For) or (isinstance(s, ast.For) and any(isinstance(t, ast.Name) and t.id == p for t in ast.walk(s.target))):
+                ctx.fail(top, s, 'df_slice rebinds its parameter `%s` (`%s`): the caller asked for exactly %s' % (p, U(s)[:80], 'n stitched columns' if p == 'n' else 'these brackets'),
+                         witness='df_slice([a, b, c], ub = dates, n = 3) must return 3 columns')
     ctx.count(1)
     purity(ctx, [fn, ctx.repo.fn('_pandas:df_slice')], params={'df'}, what='sliced data')
     g = ctx.repo.fn('_pandas:df_unslice')
